@@ -1,7 +1,732 @@
-//! C16 — not implemented yet.
-use vcore::Ctx;
+//! C16 — clock-domain crossings are always caught.
+//!
+//! One generated multi-domain design, four analyses (DESIGN.md C16):
+//! (i)   fully annotated: MismatchClockDomain ⇔ some crossing item lies
+//!       outside `unsafe (cdc)` (model of `cdc_ir`), and every report sits on
+//!       a crossing item;
+//! (ii)  all domains collapsed into one ('a, '_ or no annotation) ⇒ none;
+//! (iii) every crossing item wrapped in `unsafe (cdc)` ⇒ none;
+//! (iv)  annotations of variables / outputs / interface instances whose
+//!       domain is fixed by their one non-crossing assignment or always_ff
+//!       clock replaced by inference ⇒ the verdict of (i).
 
-pub fn run(_ctx: &Ctx) {
-    println!("INCONCLUSIVE property=C16: check not implemented");
-    std::process::exit(2);
+use crate::cdc_ir::*;
+use crate::pipe;
+use std::collections::BTreeSet;
+use vcore::{CaseCfg, Ctx, Draw, Outcome, hash_str, json};
+
+struct G<'d> {
+    d: &'d mut Draw,
+    dsg: Design,
+    /// signals that may be read by later items, per domain
+    avail: Vec<(SigId, Dom)>,
+    n_out: usize,
+    n_var: usize,
+    classes: BTreeSet<String>,
+}
+
+impl<'d> G<'d> {
+    fn add_sig(&mut self, name: String, w: usize, dom: Dom, class: Class) -> SigId {
+        self.dsg.sigs.push(Sig {
+            name,
+            w,
+            dom,
+            class,
+        });
+        self.dsg.sigs.len() - 1
+    }
+
+    fn other_dom(&mut self, not: Dom) -> Dom {
+        let others: Vec<Dom> = self.dsg.doms.iter().copied().filter(|x| *x != not).collect();
+        *self.d.pick(&others)
+    }
+
+    /// a named domain other than `not` (targets cannot live in `'_`)
+    fn other_named(&mut self, not: Dom) -> Dom {
+        let others: Vec<Dom> = self.dsg.doms.iter().copied().filter(|x| *x != not && *x != Dom::U).collect();
+        *self.d.pick(&others)
+    }
+
+    /// a fresh left-hand side signal of width `w` in domain `dom`
+    fn target(&mut self, w: usize, dom: Dom, allow_member: bool) -> SigId {
+        // the implicit domain has no variables of its own: a `'_` variable is
+        // an *inferred* one, which is what variant (iv) is about
+        debug_assert!(dom != Dom::U);
+        if allow_member {
+            // an unassigned member of an interface instance of that domain
+            let cand: Vec<SigId> = self
+                .dsg
+                .ifs
+                .iter()
+                .filter(|i| i.dom == dom)
+                .flat_map(|i| i.members.iter().copied())
+                .filter(|m| self.dsg.sigs[*m].w == w && !self.assigned(*m))
+                .collect();
+            if !cand.is_empty() && self.d.chance(1, 2) {
+                let m = *self.d.pick(&cand);
+                self.classes.insert("flow:interface-member".into());
+                return m;
+            }
+        }
+        if self.d.chance(1, 3) {
+            self.n_out += 1;
+            let n = format!("o{}", self.n_out);
+            self.add_sig(n, w, dom, Class::Out)
+        } else {
+            self.n_var += 1;
+            let n = format!("x{}", self.n_var);
+            self.add_sig(n, w, dom, Class::Var)
+        }
+    }
+
+    fn assigned(&self, s: SigId) -> bool {
+        self.dsg.items.iter().any(|it| self.dsg.item_targets(it).contains(&s))
+    }
+
+    /// an operand of width `w` from domain `dom`
+    fn operand(&mut self, w: usize, dom: Dom) -> Ex {
+        let mut cand: Vec<SigId> = self
+            .avail
+            .iter()
+            .filter(|(s, dm)| *dm == dom && self.dsg.sigs[*s].w >= w)
+            .map(|x| x.0)
+            .collect();
+        // inputs of that domain
+        for (id, s) in self.dsg.sigs.iter().enumerate() {
+            if s.class == Class::In && s.dom == dom && s.w >= w && s.w == 4 {
+                cand.push(id);
+            }
+        }
+        let s = *self.d.pick(&cand);
+        let sw = self.dsg.sigs[s].w;
+        if matches!(self.dsg.sigs[s].class, Class::Member(_)) {
+            self.classes.insert("flow:interface-member".into());
+        }
+        if sw == w {
+            Ex::S(s, None)
+        } else {
+            let lo = self.d.below_usize(sw - w + 1);
+            Ex::S(s, Some((lo + w - 1, lo)))
+        }
+    }
+
+    fn cond_sig(&self, dom: Dom) -> SigId {
+        self.dsg.sigs.iter().position(|s| s.class == Class::In && s.dom == dom && s.w == 1).unwrap()
+    }
+    fn idx_sig(&self, dom: Dom) -> SigId {
+        self.dsg.sigs.iter().position(|s| s.class == Class::In && s.dom == dom && s.w == 2).unwrap()
+    }
+
+    /// right-hand side of width `w`; operands from `dom`, except that a
+    /// `foreign` domain (if given) supplies exactly one operand
+    fn rhs(&mut self, w: usize, dom: Dom, foreign: Option<Dom>) -> Ex {
+        let shape = self.d.weighted(&[6, 4, 2, 2, if w >= 2 { 2 } else { 0 }, if w == 1 { 2 } else { 0 }, 1]);
+        let f = foreign.unwrap_or(dom);
+        match shape {
+            0 => self.operand(w, f),
+            1 => {
+                let op = *self.d.pick(&['&', '|', '^', '+']);
+                let a = self.operand(w, dom);
+                let b = self.operand(w, f);
+                if self.d.bool() { Ex::Bin(op, Box::new(a), Box::new(b)) } else { Ex::Bin(op, Box::new(b), Box::new(a)) }
+            }
+            2 => Ex::Not(Box::new(self.operand(w, f))),
+            3 => {
+                // ternary: the foreign signal is the selector or a data leg
+                let (cd, ad) = if foreign.is_some() && self.d.bool() { (f, dom) } else { (dom, f) };
+                let c = Ex::S(self.cond_sig(cd), None);
+                let a = self.operand(w, ad);
+                let b = if self.d.bool() { self.operand(w, dom) } else { Ex::K(w, self.d.below(16) as u64) };
+                Ex::Tern(Box::new(c), Box::new(a), Box::new(b))
+            }
+            4 => {
+                let w1 = 1 + self.d.below_usize(w - 1);
+                let a = self.operand(w1, f);
+                let b = if self.d.bool() { self.operand(w - w1, dom) } else { Ex::K(w - w1, self.d.below(8) as u64) };
+                if self.d.bool() { Ex::Cat(Box::new(a), Box::new(b)) } else { Ex::Cat(Box::new(b), Box::new(a)) }
+            }
+            5 => {
+                // dynamic bit select: data and index, one of them foreign
+                let (dd, id) = if foreign.is_some() && self.d.bool() { (dom, f) } else { (f, dom) };
+                let data = self
+                    .dsg
+                    .sigs
+                    .iter()
+                    .position(|s| s.class == Class::In && s.dom == dd && s.w == 4)
+                    .unwrap();
+                Ex::Dyn(data, self.idx_sig(id))
+            }
+            _ => {
+                if foreign.is_some() {
+                    self.operand(w, f)
+                } else {
+                    Ex::K(w, self.d.below(16) as u64)
+                }
+            }
+        }
+    }
+}
+
+pub struct Case {
+    pub dsg: Design,
+    pub classes: BTreeSet<String>,
+    /// signals / interface instances whose annotation inference can replace
+    pub infer_sigs: BTreeSet<SigId>,
+    pub infer_ifs: BTreeSet<usize>,
+    /// an inferred signal is read by an item placed before its assignment
+    pub use_before_def: bool,
+}
+
+pub fn generate(d: &mut Draw) -> Case {
+    let mut doms = vec![Dom::A, Dom::B];
+    if d.chance(1, 4) {
+        doms.push(Dom::C);
+    }
+    if d.chance(1, 3) {
+        doms.push(Dom::U);
+    }
+    let use_reset = d.chance(1, 2);
+    let mut g = G {
+        d,
+        dsg: Design {
+            doms: doms.clone(),
+            sigs: vec![],
+            items: vec![],
+            children: vec![],
+            ifs: vec![],
+            use_reset,
+        },
+        avail: vec![],
+        n_out: 0,
+        n_var: 0,
+        classes: BTreeSet::new(),
+    };
+    for dm in &doms {
+        let l = dm.letter();
+        g.add_sig(format!("clk_{l}"), 1, *dm, Class::Clk);
+        if use_reset {
+            g.add_sig(format!("rst_{l}"), 1, *dm, Class::Rst);
+        }
+        g.add_sig(format!("i_{l}0"), 4, *dm, Class::In);
+        g.add_sig(format!("i_{l}1"), 4, *dm, Class::In);
+        g.add_sig(format!("c_{l}"), 1, *dm, Class::In);
+        g.add_sig(format!("n_{l}"), 2, *dm, Class::In);
+    }
+    let named: Vec<Dom> = doms.iter().copied().filter(|x| *x != Dom::U).collect();
+    // interface instances
+    let nif = g.d.weighted(&[3, 3, 1]);
+    for k in 0..nif {
+        let dom = *g.d.pick(&named);
+        let nm = 1 + g.d.below_usize(2);
+        let mut members = vec![];
+        for j in 0..nm {
+            let w = *g.d.pick(&[4usize, 1, 2]);
+            members.push(g.add_sig(format!("bus{k}.v{j}"), w, dom, Class::Member(k)));
+        }
+        g.dsg.ifs.push(IfInst {
+            name: format!("bus{k}"),
+            dom,
+            members,
+        });
+    }
+    // how many crossings this design gets: none is as likely as some
+    let budget = g.d.weighted(&[5, 5, 2]);
+    let nitems = 2 + g.d.below_usize(5);
+    let mut crossings_left = budget;
+    for n in 0..nitems {
+        let dom = *g.d.pick(&named);
+        let remaining = nitems - n;
+        let cross = crossings_left > 0 && (g.d.below_usize(remaining) < crossings_left);
+        if cross {
+            crossings_left -= 1;
+        }
+        let foreign = if cross { Some(g.other_dom(dom)) } else { None };
+        let w = *g.d.pick(&[4usize, 1, 2]);
+        let kind = g.d.weighted(&[5, 3, 1, 4, 3]);
+        let item = match kind {
+            0 => {
+                // assign; crossing position: rhs, dynamic lhs index, concatenated lhs
+                let pos = if cross { g.d.weighted(&[5, 2, 2]) } else { g.d.weighted(&[8, 1, 1]) };
+                match pos {
+                    1 => {
+                        let t = g.target(4, dom, false);
+                        let idx = g.idx_sig(foreign.unwrap_or(dom));
+                        let rhs = g.rhs(1, dom, None);
+                        if cross {
+                            g.classes.insert("cross:lhs-dynamic-index".into());
+                        }
+                        IK::Assign {
+                            lhs: Lhs::One(t, LSel::Dyn(idx)),
+                            rhs,
+                        }
+                    }
+                    2 => {
+                        let t1 = g.target(2, dom, false);
+                        let d2 = if cross { g.other_named(dom) } else { dom };
+                        let t2 = g.target(2, d2, false);
+                        let rhs = g.rhs(4, dom, None);
+                        if cross {
+                            g.classes.insert("cross:concat-lhs".into());
+                        }
+                        IK::Assign {
+                            lhs: if g.d.bool() { Lhs::Cat(t1, t2) } else { Lhs::Cat(t2, t1) },
+                            rhs,
+                        }
+                    }
+                    _ => {
+                        let t = g.target(w, dom, true);
+                        let rhs = g.rhs(w, dom, foreign);
+                        if cross {
+                            g.classes.insert("cross:assign-rhs".into());
+                        }
+                        let lsel = if w == 4 && g.d.chance(1, 6) { None } else { Some(()) };
+                        match lsel {
+                            Some(()) => IK::Assign {
+                                lhs: Lhs::One(t, LSel::All),
+                                rhs,
+                            },
+                            None => {
+                                // single-bit write of a wider target
+                                let rhs1 = g.rhs(1, dom, foreign);
+                                IK::Assign {
+                                    lhs: Lhs::One(t, LSel::Bit(g.d.below_usize(4))),
+                                    rhs: rhs1,
+                                }
+                            }
+                        }
+                    }
+                }
+            }
+            1 => {
+                // always_comb default + if; crossing in data or in the condition
+                let t = g.target(w, dom, true);
+                let in_cond = cross && g.d.chance(1, 2);
+                let dflt = if g.d.chance(1, 3) { Ex::K(w, 0) } else { g.rhs(w, dom, None) };
+                let cond = if in_cond || g.d.chance(2, 3) {
+                    let cd = if in_cond { foreign.unwrap() } else { dom };
+                    let c = Ex::S(g.cond_sig(cd), None);
+                    let then = g.rhs(w, dom, if in_cond { None } else { foreign });
+                    Some((c, then))
+                } else {
+                    None
+                };
+                let dflt = if cross && !in_cond && cond.is_none() { g.rhs(w, dom, foreign) } else { dflt };
+                if cross {
+                    g.classes.insert(if in_cond { "cross:comb-condition".into() } else { "cross:comb-data".into() });
+                }
+                IK::Comb {
+                    lhs: Lhs::One(t, LSel::All),
+                    dflt,
+                    cond,
+                }
+            }
+            2 => {
+                let t = g.target(w, dom, false);
+                let in_sel = cross && g.d.bool();
+                let sel = Ex::S(g.idx_sig(if in_sel { foreign.unwrap() } else { dom }), None);
+                let a = g.rhs(w, dom, if in_sel { None } else { foreign });
+                let b = g.rhs(w, dom, None);
+                if cross {
+                    g.classes.insert(if in_sel { "cross:case-selector".into() } else { "cross:comb-data".into() });
+                }
+                IK::CombCase {
+                    lhs: Lhs::One(t, LSel::All),
+                    sel,
+                    a,
+                    b,
+                }
+            }
+            3 => {
+                // always_ff: crossing through data, condition, clock or reset
+                let t = g.target(w, dom, true);
+                let pos = if cross { g.d.weighted(&[4, 2, 3, if use_reset { 2 } else { 0 }]) } else { 0 };
+                let f = foreign.unwrap_or(dom);
+                let clk = if pos == 2 { f } else { dom };
+                let rst = if use_reset && (pos == 3 || g.d.chance(1, 2)) {
+                    Some(if pos == 3 { f } else { dom })
+                } else {
+                    None
+                };
+                let cond = if pos == 1 || g.d.chance(1, 3) {
+                    Some(Ex::S(g.cond_sig(if pos == 1 { f } else { dom }), None))
+                } else {
+                    None
+                };
+                let rhs = g.rhs(w, dom, if pos == 0 { foreign } else { None });
+                if cross {
+                    g.classes.insert(
+                        match pos {
+                            0 => "cross:ff-data",
+                            1 => "cross:ff-condition",
+                            2 => "cross:ff-clock",
+                            _ => "cross:ff-reset",
+                        }
+                        .into(),
+                    );
+                }
+                IK::Ff {
+                    clk,
+                    rst,
+                    lhs: Lhs::One(t, LSel::All),
+                    cond,
+                    rhs,
+                }
+            }
+            _ => {
+                // instance: one or two child-side domains
+                let two = g.d.chance(1, 3);
+                let annotated = two || g.d.bool();
+                let mut groups = vec![];
+                let ng = if two { 2 } else { 1 };
+                for gi in 0..ng {
+                    let nin = 1 + g.d.below_usize(2);
+                    let nout = if gi == 0 { 1 } else { g.d.below_usize(2) };
+                    let ins: Vec<usize> = (0..nin).map(|_| *g.d.pick(&[4usize, 1, 2])).collect();
+                    let outs: Vec<usize> = (0..nout).map(|_| *g.d.pick(&[4usize, 1, 2])).collect();
+                    let letter = if annotated { Some(['p', 'q'][gi]) } else { None };
+                    groups.push((letter, ins, outs));
+                }
+                // parent side: group k lives in its own parent domain (two
+                // groups may map to different parent domains without any crossing)
+                let gdoms: Vec<Dom> = (0..ng).map(|k| if k == 0 { dom } else { *g.d.pick(&named) }).collect();
+                let cross_group = g.d.below_usize(ng);
+                // a constant first connection hides the comparison partner: rare
+                let const_first = cross && g.d.chance(1, 12);
+                let mut ins = vec![];
+                let mut outs = vec![];
+                for (k, (_, gi, go)) in groups.iter().enumerate() {
+                    let gd = gdoms[k];
+                    let nconn = gi.len() + go.len();
+                    let fpos = if cross && k == cross_group {
+                        Some(if const_first { 1 + g.d.below_usize(nconn - 1) } else { g.d.below_usize(nconn) })
+                    } else {
+                        None
+                    };
+                    for (j, w) in gi.iter().enumerate() {
+                        let e = if const_first && k == cross_group && j == 0 {
+                            Ex::K(*w, 1)
+                        } else if fpos == Some(j) {
+                            let fd = g.other_dom(gd);
+                            g.operand(*w, fd)
+                        } else if g.d.chance(1, 5) {
+                            g.rhs(*w, gd, None)
+                        } else {
+                            g.operand(*w, gd)
+                        };
+                        ins.push(e);
+                    }
+                    for (j, w) in go.iter().enumerate() {
+                        let td = if fpos == Some(gi.len() + j) { g.other_named(gd) } else { gd };
+                        let t = g.target(*w, td, false);
+                        outs.push(Lhs::One(t, LSel::All));
+                    }
+                }
+                g.dsg.children.push(Child { groups });
+                g.classes.insert("flow:instance".into());
+                if cross {
+                    g.classes.insert(if const_first { "cross:instance(constant first)".into() } else { "cross:instance".into() });
+                }
+                IK::Inst {
+                    child: g.dsg.children.len() - 1,
+                    ins,
+                    outs,
+                }
+            }
+        };
+        let it = Item {
+            kind: item,
+            unsafe_cdc: false,
+        };
+        // what it writes becomes readable by later items (in its declared domain)
+        for t in g.dsg.item_targets(&it) {
+            let dm = g.dsg.sigs[t].dom;
+            let whole = match &it.kind {
+                IK::Assign { lhs: Lhs::One(_, LSel::All), .. } | IK::Assign { lhs: Lhs::Cat(..), .. } => true,
+                IK::Assign { .. } => false,
+                _ => true,
+            };
+            if whole {
+                g.avail.push((t, dm));
+            }
+        }
+        g.dsg.items.push(it);
+    }
+    // ---- unsafe (cdc) placement ---------------------------------------------
+    for i in 0..g.dsg.items.len() {
+        let crossing = g.dsg.item_crossing(&g.dsg.items[i]);
+        let wrap = if crossing { g.d.chance(2, 5) } else { g.d.chance(1, 8) };
+        g.dsg.items[i].unsafe_cdc = wrap;
+        if wrap {
+            g.classes.insert(if crossing { "unsafe:around-crossing".into() } else { "unsafe:around-clean-item".into() });
+        }
+    }
+    // ---- what inference may replace -----------------------------------------
+    let mut infer_sigs = BTreeSet::new();
+    let mut blocked_ifs: BTreeSet<usize> = BTreeSet::new();
+    let mut member_ok: BTreeSet<SigId> = BTreeSet::new();
+    for it in &g.dsg.items {
+        let ok = !g.dsg.item_crossing(it) && g.dsg.item_rhs_has_signal(it) && !matches!(it.kind, IK::Inst { .. });
+        for t in g.dsg.item_targets(it) {
+            match g.dsg.sigs[t].class {
+                Class::Var | Class::Out => {
+                    if ok {
+                        infer_sigs.insert(t);
+                    }
+                }
+                Class::Member(k) => {
+                    if ok {
+                        member_ok.insert(t);
+                    } else {
+                        blocked_ifs.insert(k);
+                    }
+                }
+                _ => {}
+            }
+        }
+    }
+    let mut infer_ifs = BTreeSet::new();
+    for (k, ifc) in g.dsg.ifs.iter().enumerate() {
+        // every member must get its domain from its own assignment
+        if !blocked_ifs.contains(&k) && ifc.members.iter().all(|m| member_ok.contains(m)) {
+            infer_ifs.insert(k);
+        }
+    }
+    // keep a random subset (the empty choice sequence keeps all)
+    let drop_some = g.d.chance(1, 3);
+    if drop_some {
+        let keep: Vec<SigId> = infer_sigs.iter().copied().collect();
+        for s in keep {
+            if g.d.bool() {
+                infer_sigs.remove(&s);
+            }
+        }
+    }
+    // ---- rarely: move a reader in front of the assignment it depends on ------
+    let mut use_before_def = false;
+    if g.d.chance(1, 15) && g.dsg.items.len() >= 2 {
+        let n = g.dsg.items.len();
+        let j = 1 + g.d.below_usize(n - 1);
+        let it = g.dsg.items.remove(j);
+        let pos = g.d.below_usize(j);
+        g.dsg.items.insert(pos, it);
+        g.classes.insert("order:item-moved-earlier".into());
+    }
+    // does any item read an inferred signal before the item that assigns it?
+    let mut defined: BTreeSet<SigId> = BTreeSet::new();
+    for it in &g.dsg.items {
+        for r in g.dsg.item_reads(it) {
+            let is_inferred = infer_sigs.contains(&r)
+                || matches!(g.dsg.sigs[r].class, Class::Member(k) if infer_ifs.contains(&k));
+            if is_inferred && !defined.contains(&r) {
+                use_before_def = true;
+            }
+        }
+        for t in g.dsg.item_targets(it) {
+            defined.insert(t);
+        }
+    }
+    if use_before_def {
+        g.classes.insert("order:inferred-signal-read-before-its-assignment".into());
+    }
+    Case {
+        dsg: g.dsg,
+        classes: g.classes,
+        infer_sigs,
+        infer_ifs,
+        use_before_def,
+    }
+}
+
+struct Verdict {
+    /// 1-based lines carrying a MismatchClockDomain label
+    lines: Vec<Vec<usize>>,
+    other_error: Option<String>,
+}
+
+fn analyse(text: &str) -> Option<Verdict> {
+    let diags = pipe::analyze(text)?;
+    let mut v = Verdict {
+        lines: vec![],
+        other_error: None,
+    };
+    for dg in diags {
+        if dg.code == "mismatch_clock_domain" {
+            v.lines.push(dg.spans.iter().map(|s| pipe::line_of(text, s.0)).collect());
+        } else if dg.is_error && v.other_error.is_none() {
+            v.other_error = Some(dg.code.clone());
+        }
+    }
+    Some(v)
+}
+
+pub fn decide(d: &mut Draw) -> Outcome {
+    let c = generate(d);
+    let dsg = &c.dsg;
+    let crossing: Vec<bool> = dsg.items.iter().map(|it| dsg.item_crossing(it)).collect();
+    let open_crossing: Vec<bool> = dsg.items.iter().zip(&crossing).map(|(it, x)| *x && !it.unsafe_cdc).collect();
+    let expect_error = open_crossing.iter().any(|x| *x);
+    let mut classes: Vec<String> = c.classes.iter().cloned().collect();
+
+    // ---- (i) fully annotated ------------------------------------------------
+    let (text_i, ranges) = dsg.text(&Mode::Full, false);
+    let Some(vi) = analyse(&text_i) else {
+        return Outcome::fail("harness:generated-design-does-not-parse", "variant (i) does not parse", json!({"src": text_i}));
+    };
+    if let Some(e) = &vi.other_error {
+        return Outcome::skip(format!("other error: {e}"));
+    }
+    let got_error = !vi.lines.is_empty();
+    let fail = |sig: &str, msg: String, text: &str| {
+        Outcome::fail(sig, format!("{msg}\n--- design ---\n{text}"), json!({"src": text}))
+    };
+    if expect_error && !got_error {
+        // name the shape if every open crossing is an instance whose first
+        // connection is a constant
+        let all_const_first = dsg
+            .items
+            .iter()
+            .zip(&open_crossing)
+            .filter(|(_, o)| **o)
+            .all(|(it, _)| dsg.inst_first_conn_constant(it));
+        let sig = if all_const_first { "crossing-missed:instance-first-connection-constant" } else { "crossing-missed" };
+        let which: Vec<usize> = (0..dsg.items.len()).filter(|i| open_crossing[*i]).collect();
+        return fail(
+            sig,
+            format!("items {which:?} (0-based, lines {:?}) connect different clock domains outside unsafe (cdc), but no MismatchClockDomain is reported", which.iter().map(|i| ranges[*i]).collect::<Vec<_>>()),
+            &text_i,
+        );
+    }
+    if !expect_error && got_error {
+        return fail(
+            "false-crossing",
+            format!("MismatchClockDomain reported at lines {:?}, but every item stays in one domain or is inside unsafe (cdc)", vi.lines),
+            &text_i,
+        );
+    }
+    // every report must sit on an open crossing item, every open crossing item must be reported
+    let item_of = |line: usize| ranges.iter().position(|(a, b)| *a <= line && line <= *b);
+    let mut reported_items: BTreeSet<usize> = BTreeSet::new();
+    for ls in &vi.lines {
+        let items: BTreeSet<usize> = ls.iter().filter_map(|l| item_of(*l)).collect();
+        if !items.iter().any(|i| open_crossing[*i]) {
+            return fail(
+                "false-crossing:located-on-clean-item",
+                format!("a MismatchClockDomain report points at lines {ls:?}, none of which belongs to a crossing item outside unsafe (cdc)"),
+                &text_i,
+            );
+        }
+        reported_items.extend(items);
+    }
+    for i in 0..dsg.items.len() {
+        if open_crossing[i] && !reported_items.contains(&i) {
+            let sig = if dsg.inst_first_conn_constant(&dsg.items[i]) {
+                "crossing-missed:instance-first-connection-constant"
+            } else {
+                "crossing-missed:one-of-several"
+            };
+            return fail(
+                sig,
+                format!("item {i} (lines {:?}) connects different clock domains outside unsafe (cdc); other crossings are reported, this one is not", ranges[i]),
+                &text_i,
+            );
+        }
+    }
+    // ---- (ii) collapse ------------------------------------------------------
+    let mode_ii = match d.weighted(&[2, 2, 1]) {
+        0 => Mode::CollapseNamed,
+        1 => Mode::CollapseUnderscore,
+        _ => Mode::CollapseBare,
+    };
+    let (text_ii, _) = dsg.text(&mode_ii, false);
+    match analyse(&text_ii) {
+        None => return fail("harness:generated-design-does-not-parse", "variant (ii) does not parse".into(), &text_ii),
+        Some(v) => {
+            if let Some(e) = v.other_error {
+                return Outcome::skip(format!("collapsed variant: other error: {e}"));
+            }
+            if !v.lines.is_empty() {
+                return fail(
+                    "collapsed-design-reported",
+                    format!("all domains collapsed into one ({mode_ii:?}), yet MismatchClockDomain is reported at lines {:?}", v.lines),
+                    &text_ii,
+                );
+            }
+        }
+    }
+    classes.push(format!("collapse:{}", match mode_ii { Mode::CollapseNamed => "'a", Mode::CollapseUnderscore => "'_", _ => "bare" }));
+    // ---- (iii) every crossing inside unsafe (cdc) -----------------------------
+    if crossing.iter().any(|x| *x) {
+        let (text_iii, _) = dsg.text(&Mode::Full, true);
+        match analyse(&text_iii) {
+            None => return fail("harness:generated-design-does-not-parse", "variant (iii) does not parse".into(), &text_iii),
+            Some(v) => {
+                if v.other_error.is_none() && !v.lines.is_empty() {
+                    return fail(
+                        "unsafe-cdc-not-honoured",
+                        format!("every crossing item is wrapped in unsafe (cdc), yet MismatchClockDomain is reported at lines {:?}", v.lines),
+                        &text_iii,
+                    );
+                }
+            }
+        }
+        classes.push("variant:all-crossings-wrapped".into());
+    }
+    // ---- (iv) inference instead of annotation ---------------------------------
+    if !c.infer_sigs.is_empty() || !c.infer_ifs.is_empty() {
+        let mode_iv = Mode::Infer {
+            sigs: c.infer_sigs.clone(),
+            ifs: c.infer_ifs.clone(),
+            underscore: d.bool(),
+        };
+        let (text_iv, _) = dsg.text(&mode_iv, false);
+        match analyse(&text_iv) {
+            None => return fail("harness:generated-design-does-not-parse", "variant (iv) does not parse".into(), &text_iv),
+            Some(v) => {
+                if let Some(e) = v.other_error {
+                    return Outcome::skip(format!("inferred variant: other error: {e}"));
+                }
+                let got_iv = !v.lines.is_empty();
+                if got_iv != got_error {
+                    let sig = if c.use_before_def && got_iv && !got_error {
+                        "inferred-differs:read-before-inferring-assignment"
+                    } else {
+                        "inferred-differs"
+                    };
+                    let names: Vec<&str> = c.infer_sigs.iter().map(|s| dsg.sigs[*s].name.as_str()).collect();
+                    let ifn: Vec<&str> = c.infer_ifs.iter().map(|k| dsg.ifs[*k].name.as_str()).collect();
+                    return fail(
+                        sig,
+                        format!(
+                            "with explicit annotations the design is {}, with the annotations of {names:?} / interface instances {ifn:?} left to inference it is {} (lines {:?})",
+                            if got_error { "rejected" } else { "accepted" },
+                            if got_iv { "rejected" } else { "accepted" },
+                            v.lines
+                        ),
+                        &text_iv,
+                    );
+                }
+            }
+        }
+        classes.push("variant:inferred".into());
+        classes.push(format!("inferred-signals:{}", (c.infer_sigs.len() + c.infer_ifs.len()).min(4)));
+    }
+    classes.push(if expect_error { "verdict:rejected".into() } else { "verdict:accepted".into() });
+    classes.push(format!("crossings:{}", crossing.iter().filter(|x| **x).count().min(3)));
+    classes.push(format!("domains:{}", dsg.doms.len()));
+    if dsg.doms.contains(&Dom::U) {
+        classes.push("domain:'_".into());
+    }
+    let through = c.classes.contains("flow:instance") || c.classes.contains("flow:interface-member");
+    Outcome::pass(hash_str(&text_i), dsg.doms.len() >= 2 && through, classes, text_i)
+}
+
+pub fn run(ctx: &Ctx) {
+    let n = ctx.scale(2500, 60_000);
+    ctx.run("domains", CaseCfg::cases(n).choices(1200), decide);
+    ctx.assume("a crossing = one declaration whose connected signals (lhs, rhs operands, select indices, guarding conditions, always_ff clock/reset; per child-domain port group for an instance) lie in ≥ 2 domains; constants have no domain; '_ is a domain of its own");
+    ctx.assume("inference replaces an annotation only for a variable / output / interface instance assigned by exactly one non-crossing item (first right-hand side has a signal, or always_ff clock)");
+    ctx.finish(
+        "exploration",
+        "multi-domain designs (2–4 domains incl. '_; assign / always_comb / always_ff / instances / interface members; 0–2 crossings by kind) analysed four ways: annotated vs model with per-item location, collapsed, all crossings wrapped, inferred; non-trivial = ≥ 2 domains and a flow through an instance or interface member",
+    );
 }
